@@ -2,7 +2,7 @@
    access sites, what a common lock guarantees, resource accounting.
    Statements only; proofs live in Conc/*.v. *)
 From Coq Require Import String List NArith Bool Permutation.
-From SeataV Require Import Conc.LockSet Conc.LockSetProofs Conc.LockSetListing Conc.Accounting Conc.AccountingProofs Conc.Reent Conc.ReentProofs Conc.LockSetTable.
+From SeataV Require Import Conc.LockSet Conc.LockSetProofs Conc.LockSetListing Conc.Accounting Conc.AccountingProofs Conc.Reent Conc.ReentProofs Conc.Order Conc.OrderProofs Conc.LockSetTable.
 Import ListNotations.
 Open Scope string_scope.
 
@@ -137,3 +137,40 @@ Proof. exact held_bars_reacquire. Qed.
 Theorem C20_reacquire_stutters : forall (s : lstate) t l m,
   In (t, l, m) s -> lstep s (Acquire t l Excl) = s.
 Proof. exact reacquire_stutters. Qed.
+
+(* lock / pool ORDER: a ranking that strictly increases along every edge excludes every cycle of
+   the wait-for relation, for every graph ... *)
+Theorem C20_order_checker_sound : forall (es : list oedge) (r : list (string * N)),
+  order_check es r = true -> forall a, ~ WaitsFor es a a.
+Proof. exact order_check_sound. Qed.
+
+(* ... and the graph regenerated from the source (an edge a -> b: some goroutine acquires b - a
+   lock, a Once being run, a pooled connection of a *sql.DB - while holding a, directly or through
+   statically resolved calls) has no cycle: no set of goroutines can wait for each other in a ring *)
+Theorem C20_wait_for_acyclic : forall a, ~ WaitsFor ls_order_edges a a.
+Proof. exact order_acyclic_at_table. Qed.
+
+Example C20_wait_for_nonvacuous :
+  existsb (fun e => (e_from e =? "pool:sql.DB")%string) ls_order_edges = true.
+Proof. exact order_table_nonvacuous. Qed.
+
+(* sync.Pool values: the checker rejects every use of a dead variable, at every position of every
+   event trace ... *)
+Theorem C20_pool_checker_sound : forall l, pool_ok l = true ->
+  forall l1 w l2, l = (l1 ++ PUse w :: l2)%list -> sin w (p_dead (prun pst0 l1)) = false.
+Proof. exact pool_ok_sound. Qed.
+
+Theorem C20_put_kills : forall st v, sin v (p_dead (pstep st (PPut v))) = true.
+Proof. exact put_kills. Qed.
+
+(* ... and no function of the client uses a value taken from a package-level sync.Pool (or anything
+   derived from it) after putting it back *)
+Theorem C20_pool_no_use_after_put : forall f p tr, In (f, p, tr) ls_pool_traces ->
+  forall l1 w l2, tr = (l1 ++ PUse w :: l2)%list -> sin w (p_dead (prun pst0 l1)) = false.
+Proof. exact pool_discipline_at_table. Qed.
+
+Example C20_pool_nonvacuous :
+  pool_ok [PGet "p"; PUse "p"; PDerive "stmts" "p"; PPut "p"; PUse "stmts"] = false
+  /\ pool_bad_from pst0 [PGet "p"; PUse "p"; PDerive "stmts" "p"; PPut "p"; PUse "stmts"] = ["stmts"]
+  /\ pool_ok [PGet "p"; PUse "p"; PDerive "stmts" "p"; PUse "stmts"; PPut "p"] = true.
+Proof. exact pool_rejects_use_after_put. Qed.
